@@ -438,6 +438,36 @@ def build_crate(name, cargo_toml, sources, hooks=True, target="target-corpus", f
     return os.path.join(CACHE, target, "debug", name)
 
 
+def build_test_crate(name, cargo_toml, sources, hooks=False, target="target-corpus", timeout=2400):
+    """Like build_crate, but compiles the crate's unit tests (`cargo test --no-run`) and returns the path of
+    the test executable (the functions a `#[ts(export)]` derive generates exist only under cfg(test))."""
+    d = crate_dir(name)
+    write_if_changed(os.path.join(d, "Cargo.toml"), cargo_toml)
+    for rel, content in sources.items():
+        write_if_changed(os.path.join(d, rel), content)
+    lock = os.path.join(d, "Cargo.lock")
+    if not os.path.exists(lock):
+        shutil.copy(os.path.join(REPO, "Cargo.lock"), lock)
+    env = {"CARGO_TARGET_DIR": os.path.join(CACHE, target)}
+    if hooks:
+        env["RUSTFLAGS"] = HOOK_CFG
+    with Lock("cargo-" + target):
+        p = run(["cargo", "test", "--no-run", "--offline", "--quiet", "--message-format=json"], cwd=d, env=env, timeout=timeout)
+    if p.returncode != 0:
+        raise HarnessError("test crate %s does not build:\n%s" % (name, (p.stdout + p.stderr)[-6000:]))
+    exe = None
+    for line in p.stdout.splitlines():
+        try:
+            m = json.loads(line)
+        except ValueError:
+            continue
+        if m.get("reason") == "compiler-artifact" and m.get("profile", {}).get("test") and m.get("executable"):
+            exe = m["executable"]
+    if exe is None:
+        raise HarnessError("test crate %s: no test executable reported" % name)
+    return exe
+
+
 def harness_toml(name, deps=("ts-rs",), ts_features=(), extra="", serde_features=("derive",)):
     lines = ['[package]', 'name = "%s"' % name, 'version = "0.0.0"', 'edition = "2021"', '', '[workspace]', '',
              '[dependencies]']
